@@ -1,11 +1,17 @@
-(* Correspondence cases for pair creation (EprGate.cmd_epr_keep inside the N-host model TeardownNet.nstep_r): sessions of
-   messages sent to several in-process NetQASM hosts over one network.  Per message: the host-level actions it amounts to
-   (instructions of the application, ONE create-and-keep request, one receipt), and what the implementation showed: how the
-   message ended, every native call that crossed the executioner -> virtual node boundary with its result (the destructive
-   measurements of cmd_epr's except-branch included), the complete dump of all virtual nodes, the bookkeeping of the
-   handling host (unit modules, used physical ids, qubitList) and the receive deques of all nodes. *)
+(* Correspondence cases for pair creation (EprGate.cmd_epr_keep / cmd_epr_measure inside the N-host model TeardownNet.nstep_r):
+   sessions of messages sent to several in-process NetQASM hosts over one network.  Per message: the host-level actions it
+   amounts to (instructions of the application, create-and-keep or measure-directly requests of one pair, receipts), and what
+   the implementation showed: how the message ended, every native call that crossed the executioner -> virtual node boundary
+   with its result (the basis rotations and destructive measurements of a measure-directly pair with their coins, and the
+   destructive measurements of cmd_epr's except-branch included), the complete dump of all virtual nodes, the bookkeeping of
+   the handling host (unit modules, used physical ids, qubitList), the receive deques of all nodes (numbers of delivered halves
+   and the outcome records of measure-directly pairs, in arrival order) and the measure-directly records the message returned
+   in its ReturnArray (outcome, basis, sequence number, directionality, remote node id, purpose id).
+   The sequence number is not an input of a session: it is read from the creator's counter (Epr.ctr_get / ctr_set, the counters
+   of the keyed model Epr.kstep: one per creating host and (local socket, remote node, remote socket)), which every request
+   advances that gets as far as new_ent_id, i.e. whose two temporaries exist (its trace contains the CNOT). *)
 From Coq Require Import List Bool Arith.
-From SQ Require Import Base.ListUtil Stab.Tableau Net.Model Net.Cases Qasm.Exec Qasm.Cases Qasm.EprGate Qasm.PerNodeNum
+From SQ Require Import Base.ListUtil Stab.Tableau Net.Model Net.Cases Qasm.Exec Qasm.Cases Qasm.Epr Qasm.EprGate Qasm.PerNodeNum
   Qasm.TeardownX Qasm.TeardownNet.
 Import ListNotations.
 
@@ -17,18 +23,44 @@ Definition act_trace (s : nst) (x : nact) : ntrace :=
       if Nat.ltb i (length (n_hosts s))
       then snd (cmd_epr_keep i (mkQ (n_net s) (host_at s i)) known r adj (fresh_id (h_used (host_at s i))) coins) else []
   | ARecv _ _ _ _ => []
+  | ACreateM i known r adj lsock rsock seq bl br c1 c2 coins =>
+      if Nat.ltb i (length (n_hosts s)) then snd (fst (create_m s i known r adj lsock rsock seq bl br c1 c2 coins)) else []
   end.
 
+(* session-level actions: a pair request names its local socket (the key of the sequence counter), a measure-directly
+   request does not carry its sequence number *)
+Inductive eact :=
+| EA (x : nact)                                  (* instruction / poll *)
+| EK (lsock : nat) (x : nact)                    (* create-and-keep request (x = ACreate ..) on the local socket lsock *)
+| EM (i : nat) (known : list nat) (r : nat) (adj : bool) (lsock rsock : nat) (bl br : mbasis) (c1 c2 : bool) (coins : list bool).
+Definition ctrs := list (ckey * nat).
+Definition resolve (c : ctrs) (e : eact) : nact * option ckey :=
+  match e with
+  | EA x => (x, None)
+  | EK ls x => (x, match x with ACreate i _ _ _ r _ rs _ => Some (i, ls, r, rs) | _ => None end)
+  | EM i known r adj ls rs bl br c1 c2 coins =>
+      (ACreateM i known r adj ls rs (ctr_get (i, ls, r, rs) c) bl br c1 c2 coins, Some (i, ls, r, rs))
+  end.
+(* new_ent_id is called after the CNOT, before the request type is looked at *)
+Definition reached_ent_id (tr : ntrace) : bool :=
+  existsb (fun e => match fst e with OGate2 _ _ _ => true | _ => false end) tr.
+
 (* a message = the actions it executed; execution stops at the first exception *)
-Fixpoint run_acts (s : nst) (xs : list nact) : nst * list qres * ntrace :=
-  match xs with
-  | [] => (s, [], [])
-  | x :: t =>
+Fixpoint run_acts (s : nst) (c : ctrs) (es : list eact) : nst * ctrs * list qres * ntrace * list (nat * mrec) :=
+  match es with
+  | [] => (s, c, [], [], [])
+  | e :: t =>
+      let '(x, key) := resolve c e in
       let '(s1, r) := nstep_r s x in
       let tr := act_trace s x in
+      let recs := act_records s x in
+      let c1 := match key with
+                | Some k => if reached_ent_id tr then ctr_set k (S (ctr_get k c)) c else c
+                | None => c
+                end in
       match r with
-      | RDone _ => let '(s2, rs, tr2) := run_acts s1 t in (s2, r :: rs, tr ++ tr2)
-      | _ => (s1, [r], tr)
+      | RDone _ => let '(s2, c2, rs, tr2, recs2) := run_acts s1 c1 t in (s2, c2, r :: rs, tr ++ tr2, recs ++ recs2)
+      | _ => (s1, c1, [r], tr, recs)
       end
   end.
 
@@ -41,26 +73,48 @@ Definition call_eqb_epr (m i : op * out) : bool :=
   | _, a, b => out_eqb a b
   end.
 
-(* receive deques: (node, socket, numbers in arrival order) for every non-empty deque of the implementation; the model must
-   hold exactly these entries *)
-Definition dpend := list (nat * nat * list nat).
-Definition pend_matches (pd : list pentry) (d : dpend) : bool :=
-  forallb (fun e => let '(nd, sk, nums) := e in
-             list_eqb Nat.eqb (map p_num (filter (fun p => Nat.eqb (p_node p) nd && Nat.eqb (p_sock p) sk) pd)) nums) d
+Definition mbasis_eqb (a b : mbasis) : bool := match a, b with BZ, BZ | BX, BX | BY, BY => true | _, _ => false end.
+Definition mrec_eqb (a b : mrec) : bool :=
+  Nat.eqb (m_outcome a) (m_outcome b) && mbasis_eqb (m_basis a) (m_basis b) && Nat.eqb (m_seq a) (m_seq b) &&
+  Nat.eqb (m_dir a) (m_dir b) && Nat.eqb (m_remote a) (m_remote b) && Nat.eqb (m_purpose a) (m_purpose b).
+
+(* receive deques: (node, socket, entries in arrival order) for every non-empty deque of the implementation -- an entry is the
+   virtual number of a delivered half or the outcome record of a measure-directly pair; the model must hold exactly these *)
+Inductive dqe := QK (num : nat) | QM (rec : mrec).
+Definition dqe_eqb (a b : dqe) : bool :=
+  match a, b with QK x, QK y => Nat.eqb x y | QM x, QM y => mrec_eqb x y | _, _ => false end.
+Definition dqe_of (d : dentry) : dqe := match d with DK e => QK (p_num e) | DM _ _ rec => QM rec end.
+Definition dpend := list (nat * nat * list dqe).
+Definition pend_matches (pd : list dentry) (d : dpend) : bool :=
+  forallb (fun e => let '(nd, sk, es) := e in
+             list_eqb dqe_eqb (map dqe_of (filter (fun p => Nat.eqb (d_node p) nd && Nat.eqb (d_sock p) sk) pd)) es) d
   && Nat.eqb (length pd) (fold_right (fun e acc => length (snd e) + acc) 0 d).
 
-Definition demsg := (nat * list nact * nat * list (op * out) * list dnode * dhost * dpend)%type.
+(* the measure-directly records a message returned: all written by the handling host, in order *)
+Definition recs_match (hi : nat) (m : list (nat * mrec)) (obs : list mrec) : bool :=
+  forallb (fun e => Nat.eqb (fst e) hi) m && list_eqb mrec_eqb (map snd m) obs.
+
+Definition demsg := (nat * list eact * nat * list (op * out) * list dnode * dhost * dpend * list mrec)%type.
 
 (* 0 = agreement on every message, otherwise 1 + index of the first disagreeing message *)
-Fixpoint check_emsgs (k : nat) (s : nst) (ms : list demsg) : nat :=
+Fixpoint check_emsgs (k : nat) (s : nst) (c : ctrs) (ms : list demsg) : nat :=
   match ms with
   | [] => 0
-  | (hi, xs, fin, calls, dn, dh, dp) :: t =>
-      let '(s', rs, tr) := run_acts s xs in
+  | (hi, xs, fin, calls, dn, dh, dp, mr) :: t =>
+      let '(s', c', rs, tr, recs) := run_acts s c xs in
       if Nat.eqb (length rs) (length xs) && Nat.eqb (ending rs false) fin
          && list_eqb call_eqb_epr tr calls
          && list_eqb dnode_eqb (dump (n_net s')) dn && host_matches (host_at s' hi) dh && pend_matches (n_pend s') dp
-      then check_emsgs (S k) s' t else S k
+         && recs_match hi recs mr
+      then check_emsgs (S k) s' c' t else S k
   end.
 
-Definition check_esession (c : list (nat * nat) * list demsg) : nat := check_emsgs 0 (ninit (fst c)) (snd c).
+Definition check_esession (c : list (nat * nat) * list demsg) : nat := check_emsgs 0 (ninit (fst c)) [] (snd c).
+
+(* the composition with the keyed model is the identity on everything but the sequence number: a session without pair
+   requests, or a single action, is nstep_r *)
+Lemma run_acts_single s c x :
+  fst (fst (fst (fst (run_acts s c [EA x])))) = nstep s x /\ snd (fst (fst (run_acts s c [EA x]))) = [snd (nstep_r s x)].
+Proof.
+  cbn [run_acts resolve]. unfold nstep. destruct (nstep_r s x) as [s1 r]. destruct r; cbn [fst snd]; auto.
+Qed.
